@@ -72,6 +72,8 @@ func c13Leaf(k *fw.K, kind string, b, cl int) {
 		refusedCalls(k)
 	}
 	present := map[string]bool{}
+	var prevRp tensor.Tensor
+	var prevP *ref.T
 	for round := 0; round < rounds; round++ {
 		p, t := ref.Zeros(shape), ref.Zeros(shape)
 		for i := range p.Data {
@@ -132,8 +134,23 @@ func c13Leaf(k *fw.K, kind string, b, cl int) {
 		}
 		trackP := k.Rng.Intn(8) > 0
 		trackT := k.Rng.Intn(2) == 0
+		// the prediction OBJECT of the previous round is used again after ResetGradContext made it a fresh leaf (its loss was
+		// back-propagated, so the re-arming is inside the contract): same values, new labels, a gradient from this round only
+		reuse := round > 0 && prevRp != nil && k.Rng.Intn(2) == 0
+		if reuse {
+			p = prevP
+		}
 		cases = append(cases, lossCase{Loss: kind, Pred: p, Target: t})
-		rp, rtt := rt.MustLeaf(p, trackP), rt.MustLeaf(t, trackT)
+		rp, rtt := tensor.Tensor(nil), rt.MustLeaf(t, trackT)
+		if reuse {
+			rp = prevRp
+			rp.ResetGradContext(trackP)
+			present["p:re-armed-object"] = true
+			k.Count("rounds_on_the_re_armed_prediction_object_of_the_previous_round", 1)
+		} else {
+			rp = rt.MustLeaf(p, trackP)
+		}
+		prevRp, prevP = rp, p
 		if hard := allHard(t); hard && k.Rng.Intn(3) == 0 {
 			// the 0/1 labels are a comparison MASK over the output of a stage that was already back-propagated (thresholded
 			// pseudo-labels): a comparison result is a fresh untracked tensor whatever its operands went through
